@@ -15,9 +15,9 @@ package dataset
 // key layouts used by the compactor: the latest pointer of the version's entity in the version's dataset, and the
 // outgoing / incoming reference keys of a version (the layouts the write path of internal/server uses)
 //@ unit dataset.mkLatestKey
-//@   prop C12
+//@   prop C12 C01 C02
 //@   requires len(jsonKey) == 24
-//@   ensures [C12:latest-pointer-key-of-the-versions-entity-and-dataset] len(result) == 14 && encBE16(result, 0) == 8 && encBE32(result, 2) == encBE32(jsonKey, 10) && encBE64(result, 6) == encBE64(jsonKey, 2)
+//@   ensures [C12,C01,C02:latest-pointer-key-of-the-versions-entity-and-dataset] len(result) == 14 && encBE16(result, 0) == 8 && encBE32(result, 2) == encBE32(jsonKey, 10) && encBE64(result, 6) == encBE64(jsonKey, 2)
 //@   modifies none
 //@   safe slice
 //@ assumed (entity.Lookup).InternalIDForCURIE
@@ -25,21 +25,21 @@ package dataset
 //@ assumed dataset.toRefs
 //@   pure
 //@ unit dataset.processRefs
-//@   prop C12
+//@   prop C12 C01 C02
 //@   requires ent != nil && len(jsonKey) == 24
 //@   frame-assumed preserves deduplicationStrategy.*, Entity.*, compactionInstruction.*, map[string]interface{}, Cell.*
 //@   safe slice
 //@   at call append#1 before
-//@     assert [C12:outgoing-reference-key-of-this-version] len($arg1) == 1 && len($arg1[0]) == 40 && encBE16($arg1[0], 0) == 3 && encBE64($arg1[0], 2) == ent.InternalID && encBE64($arg1[0], 10) == ent.Recorded && encBE64($arg1[0], 18) == predid && encBE64($arg1[0], 26) == relatedid && encBE16($arg1[0], 34) == (ent.IsDeleted ? 1 : 0) && encBE32($arg1[0], 36) == encBE32(jsonKey, 10)
+//@     assert [C12,C01,C02:outgoing-reference-key-of-this-version] len($arg1) == 1 && len($arg1[0]) == 40 && encBE16($arg1[0], 0) == 3 && encBE64($arg1[0], 2) == ent.InternalID && encBE64($arg1[0], 10) == ent.Recorded && encBE64($arg1[0], 18) == predid && encBE64($arg1[0], 26) == relatedid && encBE16($arg1[0], 34) == (ent.IsDeleted ? 1 : 0) && encBE32($arg1[0], 36) == encBE32(jsonKey, 10)
 //@   at call append#2 before
-//@     assert [C12:incoming-reference-key-of-this-version] len($arg1) == 1 && len($arg1[0]) == 40 && encBE16($arg1[0], 0) == 2 && encBE64($arg1[0], 2) == relatedid && encBE64($arg1[0], 10) == ent.InternalID && encBE64($arg1[0], 18) == ent.Recorded && encBE64($arg1[0], 26) == predid && encBE16($arg1[0], 34) == (ent.IsDeleted ? 1 : 0) && encBE32($arg1[0], 36) == encBE32(jsonKey, 10)
+//@     assert [C12,C01,C02:incoming-reference-key-of-this-version] len($arg1) == 1 && len($arg1[0]) == 40 && encBE16($arg1[0], 0) == 2 && encBE64($arg1[0], 2) == relatedid && encBE64($arg1[0], 10) == ent.InternalID && encBE64($arg1[0], 18) == ent.Recorded && encBE64($arg1[0], 26) == predid && encBE16($arg1[0], 34) == (ent.IsDeleted ? 1 : 0) && encBE32($arg1[0], 36) == encBE32(jsonKey, 10)
 //@ assumed bytes.Equal
 //@   pure
 //@ assumed reflect.DeepEqual
 //@   pure
 
 //@ unit (*deduplicationStrategy).eval
-//@   prop C12
+//@   prop C12 C01 C02
 //@   ghost equalG bool = false
 //@   requires d != nil && e != nil && d.changeBuffer != nil && d.counts != nil && len(jsonKey) == 24
 //@   requires !isFirstVersion ==> d.prev != nil
@@ -67,15 +67,15 @@ package dataset
 // Callers rely on: it does not touch forEntity's iterator or loop variables (frame taken on trust: they are not captured).
 // the instruction queues: delete keys, and latest-pointer rewrites as two parallel lists (key i is rewritten to value i)
 //@ unit (*compactionInstruction).append
-//@   prop C12
+//@   prop C12 C01 C02
 //@   requires i != nil && instr != nil && i != instr
-//@   ensures [C12:collected-queues-grow-by-the-new-instruction] len(i.DeleteKeys) == old(len(i.DeleteKeys)) + len(instr.DeleteKeys) && len(i.RewriteKeys) == old(len(i.RewriteKeys)) + len(instr.RewriteKeys) && len(i.RewriteValues) == old(len(i.RewriteValues)) + len(instr.RewriteValues)
-//@   ensures [C12:the-collected-instruction-itself-is-left-alone] len(instr.DeleteKeys) == old(len(instr.DeleteKeys)) && len(instr.RewriteKeys) == old(len(instr.RewriteKeys)) && len(instr.RewriteValues) == old(len(instr.RewriteValues))
+//@   ensures [C12,C01,C02:collected-queues-grow-by-the-new-instruction] len(i.DeleteKeys) == old(len(i.DeleteKeys)) + len(instr.DeleteKeys) && len(i.RewriteKeys) == old(len(i.RewriteKeys)) + len(instr.RewriteKeys) && len(i.RewriteValues) == old(len(i.RewriteValues)) + len(instr.RewriteValues)
+//@   ensures [C12,C01,C02:the-collected-instruction-itself-is-left-alone] len(instr.DeleteKeys) == old(len(instr.DeleteKeys)) && len(instr.RewriteKeys) == old(len(instr.RewriteKeys)) && len(instr.RewriteValues) == old(len(instr.RewriteValues))
 //@   modifies compactionInstruction.DeleteKeys, compactionInstruction.RewriteKeys, compactionInstruction.RewriteValues, [][]uint8
 //@ unit (*compactionInstruction).reset
-//@   prop C12
+//@   prop C12 C01 C02
 //@   requires i != nil
-//@   ensures [C12:a-reset-empties-all-three-queues-so-rewrite-keys-and-values-stay-paired] len(i.DeleteKeys) == 0 && len(i.RewriteKeys) == 0 && len(i.RewriteValues) == 0
+//@   ensures [C12,C01,C02:a-reset-empties-all-three-queues-so-rewrite-keys-and-values-stay-paired] len(i.DeleteKeys) == 0 && len(i.RewriteKeys) == 0 && len(i.RewriteValues) == 0
 //@   modifies compactionInstruction.DeleteKeys, compactionInstruction.RewriteKeys, compactionInstruction.RewriteValues
 //@ assumed dataset.toEntity
 //@   pure
@@ -84,36 +84,36 @@ package dataset
 //@   pure
 //@   ensures ret0 != nil ==> len(ret0.RewriteKeys) == len(ret0.RewriteValues)
 //@ unit (*CompactionWorker).forEntity$1
-//@   prop C12
+//@   prop C12 C01 C02
 //@   frame-assumed preserves Elem.*, F.*, Map*, Cell.*, G.*
 //@   requires ops != nil && len(ops.RewriteKeys) == len(ops.RewriteValues)
 //@   ghost collectedG bool = false
 //@   ghost flushedG bool = false
 //@   ghost flushErrG iface
-//@   ensures [C12:flush-error-is-returned] flushedG ==> result == flushErrG
-//@   ensures [C12:rewrite-keys-and-values-stay-paired] len(ops.RewriteKeys) == len(ops.RewriteValues)
+//@   ensures [C12,C01,C02:flush-error-is-returned] flushedG ==> result == flushErrG
+//@   ensures [C12,C01,C02:rewrite-keys-and-values-stay-paired] len(ops.RewriteKeys) == len(ops.RewriteValues)
 //@   at call eval#1
 //@     assume $result0 != ops
 //@   at call append#1 before
-//@     assert [C12:collected-instruction-is-the-one-the-strategy-returned] $arg1 == instr && $arg0 == ops
+//@     assert [C12,C01,C02:collected-instruction-is-the-one-the-strategy-returned] $arg1 == instr && $arg0 == ops
 //@     ghost collectedG := true
 //@   at call flushDeletes#1 before
-//@     assert [C12:instruction-collected-before-the-flush-that-applies-its-buffered-change-log-deletes] collectedG && !finalFlush
+//@     assert [C12,C01,C02:instruction-collected-before-the-flush-that-applies-its-buffered-change-log-deletes] collectedG && !finalFlush
 //@   at call flushDeletes#1
 //@     ghost flushedG := true
 //@     ghost flushErrG := $result1
 //@   at call reset#1 before
-//@     assert [C12:collected-instructions-dropped-only-after-a-flush-applied-them] flushedG && reset
+//@     assert [C12,C01,C02:collected-instructions-dropped-only-after-a-flush-applied-them] flushedG && reset
 
 //@ unit (*CompactionWorker).forEntity
-//@   prop C12
+//@   prop C12 C01 C02
 //@   ghost evalsG int = 0
 //@   ghost capturedG int = 0
 //@   ghost pendingKeyG slice
 //@   ghost pendingBytesG slice
 //@   requires c != nil && ops != nil && len(ops.RewriteKeys) == len(ops.RewriteValues)
 //@   at call NewIterator#1 before
-//@     assert [C12:only-the-versions-of-this-entity-in-this-dataset-are-walked] len(opt.Prefix) == 14 && encBE16(opt.Prefix, 0) == 1 && encBE64(opt.Prefix, 2) == internalEntityID && encBE32(opt.Prefix, 10) == dsId
+//@     assert [C12,C01,C02:only-the-versions-of-this-entity-in-this-dataset-are-walked] len(opt.Prefix) == 14 && encBE16(opt.Prefix, 0) == 1 && encBE64(opt.Prefix, 2) == internalEntityID && encBE32(opt.Prefix, 10) == dsId
 //@   at call KeyCopy#1
 //@     ghost pendingKeyG := $result
 //@     ghost capturedG := capturedG + 1
@@ -121,13 +121,13 @@ package dataset
 //@     assume $result1 == nil ==> !isnil($result0)
 //@     ghost pendingBytesG := $result0
 //@   at call forEntity$1#1 before
-//@     assert [C12:versions-evaluated-in-order-one-behind-the-iterator] $arg1 == pendingKeyG && $arg0 == pendingBytesG && evalsG == capturedG - 1
-//@     assert [C12:only-the-first-evaluation-is-marked-first] $arg2 == (evalsG == 0)
-//@     assert [C12:evaluations-inside-the-loop-are-not-last] !$arg3
+//@     assert [C12,C01,C02:versions-evaluated-in-order-one-behind-the-iterator] $arg1 == pendingKeyG && $arg0 == pendingBytesG && evalsG == capturedG - 1
+//@     assert [C12,C01,C02:only-the-first-evaluation-is-marked-first] $arg2 == (evalsG == 0)
+//@     assert [C12,C01,C02:evaluations-inside-the-loop-are-not-last] !$arg3
 //@     ghost evalsG := evalsG + 1
 //@   at call forEntity$1#2 before
-//@     assert [C12:last-version-evaluated-after-the-loop-and-marked-last] $arg3 && (capturedG > 0 ==> $arg1 == pendingKeyG && $arg0 == pendingBytesG && evalsG == capturedG - 1)
-//@     assert [C12:only-the-first-evaluation-is-marked-first] $arg2 == (evalsG == 0)
+//@     assert [C12,C01,C02:last-version-evaluated-after-the-loop-and-marked-last] $arg3 && (capturedG > 0 ==> $arg1 == pendingKeyG && $arg0 == pendingBytesG && evalsG == capturedG - 1)
+//@     assert [C12,C01,C02:only-the-first-evaluation-is-marked-first] $arg2 == (evalsG == 0)
 //@   loop 1
 //@     invariant evalsG >= 0 && capturedG >= 0 && (capturedG == 0 ==> evalsG == 0 && isnil(jsonBytes)) && (capturedG > 0 ==> evalsG == capturedG - 1 && !isnil(jsonBytes))
 //@     invariant isFirstChange <==> evalsG == 0
@@ -144,13 +144,13 @@ package dataset
 //@   pure
 
 //@ unit dataset.flushDeletes
-//@   prop C12
+//@   prop C12 C01 C02
 //@   frame-assumed preserves Cell.*, compactionInstruction.*, CompactionWorker.*
 //@   requires ops != nil && len(ops.RewriteKeys) == len(ops.RewriteValues)
 //@   at $1 call Delete#1 before
-//@     assert [C12:deletes-go-through-the-flush-transaction] $arg0 == txn
+//@     assert [C12,C01,C02:deletes-go-through-the-flush-transaction] $arg0 == txn
 //@   at $1 call Set#1 before
-//@     assert [C12:latest-pointer-rewritten-in-the-same-transaction-as-the-deletes] $arg0 == txn && key == ops.RewriteKeys[i] && val == ops.RewriteValues[i]
+//@     assert [C12,C01,C02:latest-pointer-rewritten-in-the-same-transaction-as-the-deletes] $arg0 == txn && key == ops.RewriteKeys[i] && val == ops.RewriteValues[i]
 //@     assert [C12:latest-pointer-rewritten-while-writers-are-excluded] exists l int :: has($held, l) && kindOf(l) == lockKind("server.Dataset", "WriteLock")
 //@   loop $1:2
 //@     invariant -1 <= $i && $i < len(ops.RewriteKeys) && len(ops.RewriteKeys) == len(ops.RewriteValues)
@@ -199,11 +199,11 @@ package dataset
 // the change-log entries of a removed version are searched in the change log of the version's own dataset, and every key
 // that is kept for the later delete is a copy of its own (the iterator reuses the buffer Key() hands out as it moves on)
 //@ unit (*deduplicationStrategy).findChangeLogKeys
-//@   prop C12
+//@   prop C12 C01 C02
 //@   requires d != nil && txn != nil && len(jsonKey) == 24
 //@   safe slice
 //@   at call NewIterator#1 before
-//@     assert [C12:change-log-entries-are-searched-in-the-change-log-of-the-versions-own-dataset] len(opt.Prefix) == 6 && encBE16(opt.Prefix, 0) == 4 && encBE32(opt.Prefix, 2) == encBE32(jsonKey, 10)
+//@     assert [C12,C01,C02:change-log-entries-are-searched-in-the-change-log-of-the-versions-own-dataset] len(opt.Prefix) == 6 && encBE16(opt.Prefix, 0) == 4 && encBE32(opt.Prefix, 2) == encBE32(jsonKey, 10)
 //@   at call append#1 before
-//@     assert [C12:a-change-log-key-kept-for-the-delete-is-a-copy-not-the-iterators-own-buffer] !iterOwned(arrOf($arg1[0]))
+//@     assert [C12,C01,C02:a-change-log-key-kept-for-the-delete-is-a-copy-not-the-iterators-own-buffer] !iterOwned(arrOf($arg1[0]))
 
